@@ -1224,7 +1224,7 @@ impl Engine for HistEngine {
         if self.mode != Mode::Purity || std::env::var("VERIF_NO_THREADS").is_ok() {
             return Ok(None);
         }
-        let n: u64 = if ctx.tier == Tier::Thorough { 3072 } else { 192 };
+        let n: u64 = if ctx.tier == Tier::Thorough { 3072 } else { 320 };
         // build once (serially); a failure here is a harness error, not a verdict
         match run_thread_case(&thread_case(ctx.seed, 0)) {
             ThreadOutcome::Harness(e) => return Err(e),
